@@ -11,7 +11,7 @@ RULE = ('random small specs x random option sets; for every Optimal run both res
         'matching that reaches the printer; non-trivial = Optimal run whose long listing was judged; distinct = distinct '
         '(instance, printed matching)')
 ASSUMPTIONS = ['reference statistics in rv/refmodel.py follow the wording of C11']
-PROFILE = {'name': 'c11', 'spec': {}, 'opts': {}, 'medium_rate': 0.15, 'shipped_rate': 0.02}
+PROFILE = {'name': 'c11', 'spec': {}, 'opts': {}, 'medium_rate': 0.15, 'shipped_rate': 0.02, 'large_rate': 0.04}
 
 
 def plan(tier):
